@@ -55,11 +55,14 @@ ELEMWISE = {"np.abs", "np.sqrt", "np.square", "np.negative", "np.copy", "np.zero
 
 
 class Typer:
-    def __init__(self, f, array_params: List[str]):
+    def __init__(self, f, array_params: List[str], repo=None, env=None, depth=0):
         self.f = f
-        self.env: Dict[str, object] = {p: Arr("N", "data") for p in array_params}
+        self.repo, self.depth = repo, depth
+        self.env: Dict[str, object] = dict(env) if env is not None else {p: Arr("N", "data") for p in array_params}
         self.findings: List[Tuple[ast.AST, bool, str]] = []
         self.argsorts: List[Tuple[ast.Call, Optional[str]]] = []
+        self.ret = TOP
+        self.rename: Dict[str, str] = {}    # callee parameter -> caller argument name (for the sort key)
 
     def ty(self, e: ast.AST):
         if isinstance(e, ast.Name):
@@ -142,10 +145,30 @@ class Typer:
                 return self.ty(e.func.value)
             if d == "len":
                 return Ctr()
+            g = self._helper(e)
+            if g is not None:
+                argt = [self.ty(a) for a in e.args]
+                if len(argt) == len(g.params):
+                    sub = Typer(g, [], self.repo, env=dict(zip(g.params, argt)), depth=self.depth + 1)
+                    sub.rename = {p: (a.id if isinstance(a, ast.Name) else None) for p, a in zip(g.params, e.args)}
+                    sub.run()
+                    self.findings += sub.findings
+                    for c, key in sub.argsorts:
+                        self.argsorts.append((c, sub.rename.get(key, None) if key in sub.rename else key))
+                    return sub.ret
             for a in e.args:
                 self.ty(a)   # visit for findings
             return TOP
         return TOP
+
+    def _helper(self, e: ast.Call):
+        if self.repo is None or self.depth >= 3 or not isinstance(e.func, ast.Name):
+            return None
+        q = f"{self.f.module.name}.{e.func.id}"
+        g = self.repo.funcs.get(q)
+        if g is None or g.cls is not None or g.parent is not None or e.keywords:
+            return None
+        return g
 
     def subscript(self, e: ast.Subscript, store: bool):
         A = self.ty(e.value)
@@ -211,7 +234,7 @@ class Typer:
                 elif isinstance(s, ast.Expr):
                     self.ty(s.value)
                 elif isinstance(s, ast.Return) and s.value is not None:
-                    self.ty(s.value)
+                    self.ret = self.ty(s.value)
 
 
 @rule("IDX", min_instances=8)
@@ -223,7 +246,7 @@ def rule_idx(ctx: Ctx) -> List[Ob]:
     f = ctx.repo.func("cauchy.get_cauchy_point")
     ap = [p for p in ("x", "grad", "lb", "ub") if p in f.params]
     need(len(ap) == 4, "get_cauchy_point: array parameters x, grad, lb, ub not found")
-    ty = Typer(f, ap)
+    ty = Typer(f, ap, ctx.repo)
     ty.run()
     obs: List[Ob] = []
     seen = set()
